@@ -148,6 +148,10 @@ def related(rng, labels):
     return gen_labels(rng)
 
 
+def lower_labels(labels):
+    return [bytes(c + 32 if 65 <= c <= 90 else c for c in l) for l in labels]
+
+
 def fits(labels):
     return all(len(l) <= 63 for l in labels) and sum(len(l) + 1 for l in labels) <= 255 and b"" not in labels[:-1]
 
